@@ -197,7 +197,10 @@ class ProgGen(object):
             choices += ["arith"] * 4
         if t == BOOL:
             choices += ["cmp"] * 3 + ["logic"] * 2
-        nocond = self.top_loop and not self.in_fun
+        # Conditionals (if / => / and / or) are generated inside functions, lambdas, generators, domain operations and
+        # macros only: at file level the type checker's conditional context mis-resolves overloaded, qualified and
+        # literal meanings (open findings F3, F5, F6 and relatives, each kept visible by a fixed program).
+        nocond = not self.in_fun and not self.in_macro
         if nocond:
             choices = [c for c in choices if c != "logic"]
         else:
@@ -205,14 +208,14 @@ class ProgGen(object):
         if "exit" in self.feat and not self.in_exit_cond and not nocond:
             choices += ["exitseq"]
         # operands must be free of side effects: the order of evaluation of operands is undefined
-        fs = [i for i, f in enumerate(self.funs) if tkey(f["rt"]) == tkey(t) and f.get("callable", True) and f.get("pure")]
+        fs = [i for i, f in enumerate(self.funs) if tkey(f["rt"]) == tkey(t) and self.here(f) and f.get("pure")]
         if fs:
             choices += ["call"] * 3
         dcs = self.dcall_choices(t) if isinstance(t, str) else []
         if dcs:
             choices += ["dcall"] * 2
         ms = [i for i, m in enumerate(self.macs) if m["rt"] == t] if isinstance(t, str) else []
-        if ms and not self.in_macro and not (self.top_loop and not self.in_fun):
+        if ms and not self.in_macro and self.in_fun:
             choices += ["mac"] * 2
         if t == BI and "bi" in self.feat:
             choices += ["tobi", "pow"]
@@ -343,7 +346,7 @@ class ProgGen(object):
             return {"e": "try", "t": t, "body": body, "hs": hs, "fin": fin}
         if not self.pure_mode and r.random() < 0.35:
             c = []
-            fs = [i for i, f in enumerate(self.funs) if tkey(f["rt"]) == tkey(t) and f.get("callable", True) and not f.get("pure")]
+            fs = [i for i, f in enumerate(self.funs) if tkey(f["rt"]) == tkey(t) and self.here(f) and not f.get("pure")]
             if fs:
                 c += [("call", i) for i in fs]
             for x, (vt, _) in scope.lookup_all().items():
@@ -467,7 +470,7 @@ class ProgGen(object):
             return {"e": "for", "x": i, "lo": lit(SI, lo), "hi": lit(SI, hi), "body": body}
         if c == "forin":
             srcs = [(x, vt) for x, (vt, a) in allv.items() if isinstance(vt, list) and vt[0] in ("list", "gen")]
-            gfs = [i for i, f in enumerate(self.funs) if isinstance(f["rt"], list) and f["rt"][0] == "gen"]
+            gfs = [i for i, f in enumerate(self.funs) if isinstance(f["rt"], list) and f["rt"][0] == "gen" and self.here(f)]
             if not srcs and not gfs:
                 return self.stmt(scope, 0)
             i = self.fresh("e")
@@ -504,7 +507,7 @@ class ProgGen(object):
             return {"e": "yield", "v": self.rhs(self.in_gen, scope, d)}
         if c == "callstmt":
             fi = r.randrange(len(self.funs))
-            if not self.funs[fi].get("callable", True):
+            if not self.here(self.funs[fi]):
                 return self.stmt(scope, 0)
             return self.call(fi, scope, d)
         k, x = c
@@ -617,6 +620,19 @@ class ProgGen(object):
         f = {"name": name, "ps": ps, "pts": pts, "rt": rt, "body": fbody, "pure": pure}
         if kind == "recur":
             f["fuel"] = True
+        f["oname"] = f["name"]
+        if "ovl" in self.feat and f["pts"] and self.r.random() < 0.6:
+            sig = tkey(["x"] + f["pts"])
+            groups = {}
+            for h in self.funs:
+                groups.setdefault(h["oname"], []).append(h)
+            for on, g in groups.items():
+                if all(h["pts"] for h in g) and all(tkey(["x"] + h["pts"]) != sig for h in g) and len(g) < 3:
+                    newname = on if on.startswith("ov") else "ov" + g[0]["name"]
+                    for h in g:
+                        h["oname"] = newname
+                    f["oname"] = newname
+                    break
         self.funs.append(f)
         self.items.append(("f", f))
         return f
@@ -756,27 +772,14 @@ class ProgGen(object):
                 "uns": self.uns, "macs": self.macs, "cats": self.cats, "doms": self.doms, "feat": sorted(self.feat), "seed": self.seed}
 
     def overload_groups(self):
-        """Feature ovl: several functions share one Aldor name when their parameter type lists differ pairwise
-        (so that every call is resolved by its argument types alone)."""
+        """(groups are formed when each function is created, see function())"""
         for f in self.funs:
-            f["oname"] = f["name"]
-        if "ovl" not in self.feat:
-            return
-        cands = [f for f in self.funs if f["pts"]]
-        self.r.shuffle(cands)
-        groups = []
-        for f in cands:
-            sig = tkey(["x"] + f["pts"])
-            for g in groups:
-                if all(tkey(["x"] + h["pts"]) != sig for h in g) and len(g) < 3 and self.r.random() < 0.7:
-                    g.append(f)
-                    break
-            else:
-                groups.append([f])
-        for g in groups:
-            if len(g) > 1:
-                for f in g:
-                    f["oname"] = "ov" + g[0]["name"]
+            f.setdefault("oname", f["name"])
+
+    def here(self, f):
+        """May this function be called at the current place?  Overloaded names are only used inside functions:
+        at file level their resolution inside conditionals is fragile (finding F6 family)."""
+        return f.get("callable", True) and (self.in_fun or f.get("oname", f["name"]) == f["name"])
 
     def global_var(self):
         t = self.data_type()
